@@ -29,7 +29,7 @@ from vf import lib, sym
 from vf.env import shadow_builtins, NpProxy
 from vf.sym import S, SI, SB
 from vf.timeidx import time_np_overrides, sym_int, near_time, as_int, all_of, any_of
-from vf.poly import ob_eq_poly
+from vf.poly import ob_eq_poly, either_of_poly
 
 ASSUMPTIONS = [
     "exact real arithmetic for times (float times are start + dt*(k+e), |e|<1/2: ties and floating-point rounding of "
@@ -85,7 +85,10 @@ class H1(Case):
     mode: 'claim'            int-only / float-only stacks, or mixed stacks in which no int control shares
                              (step, side) with a float control; distinct float times are inserted in
                              chronological order
-          'mixed_same_step'  one int and one float control on the same step and side
+          'mixed_same_step/each_acts_once'   one int and one float control on the same step and side: the returned
+                             operator contains both exactly once (either order); None-ness; repeatable query
+          'mixed_same_step/insertion_order'  same inputs, ONLY the obligation "product in insertion order"
+                             (known finding: fixed category order)
           'float_antichrono' two distinct float times inserted latest first, same step and side"""
     functions = ("Control.add_single", "Control.get_controls")
     stubs = ("np.round -> nearest integer in exact real arithmetic, ties excluded by precondition",)
@@ -139,7 +142,7 @@ class H1(Case):
         if self.mode == "claim":
             for c in shared:
                 inp.assume(_neg(c))
-        elif self.mode in ("mixed_same_step", "float_antichrono"):
+        elif self.mode.startswith("mixed_same_step") or self.mode == "float_antichrono":
             for i in range(len(mats)):
                 inp.assume(steps[i] == q)
                 if i:
@@ -150,20 +153,25 @@ class H1(Case):
                 control.add_single(t, mats[i], post=posts[i])
             pre, post = control.get_controls(q, dt=dt, start_time=start)
             pre2, post2 = control.get_controls(q, dt=dt, start_time=start)
-        obs = [Ob.holds("asking again gives the same pre/post operators (a query does not change what is registered)",
-                        all_of([_same(pre2, pre), _same(post2, post)]), key="repeatable")]
+        only_order = self.mode == "mixed_same_step/insertion_order"
+        either_order = self.mode in ("float_antichrono", "mixed_same_step/each_acts_once")
+        obs = []
+        if not only_order:
+            obs.append(Ob.holds("asking again gives the same pre/post operators (a query does not change what is registered)",
+                                all_of([_same(pre2, pre), _same(post2, post)]), key="repeatable"))
         for side_name, got, want_post in (("pre", pre, False), ("post", post, True)):
             members = [i for i in range(len(mats))
                        if _truth(all_of([steps[i] == q, posts[i] if want_post else _neg(posts[i])]))]
             exp = _prod([mats[i] for i in members])
-            obs.append(Ob.holds("%s: None iff nothing registered for the step" % side_name, (got is None) == (exp is None),
-                                key="none_iff_empty"))
+            if not only_order:
+                obs.append(Ob.holds("%s: None iff nothing registered for the step" % side_name, (got is None) == (exp is None),
+                                    key="none_iff_empty"))
             if got is None or exp is None:
                 continue
-            if self.mode == "float_antichrono":
+            if either_order:
                 rev = _prod([mats[i] for i in reversed(members)])
-                obs.append(Ob.holds("%s: every registered control acts exactly once (either order)" % side_name,
-                                    any_of([_same(got, exp), _same(got, rev)]), key="once"))
+                obs.append(either_of_poly(inp, "%s: every registered control acts exactly once (either order)" % side_name,
+                                          got, [exp, rev], key="once"))
             else:
                 obs.append(ob_eq_poly(inp, "%s: product in insertion order (later added acts later)" % side_name, got, exp, key="order"))
         return obs
@@ -416,9 +424,9 @@ def cases(tier):
     # ---- H1 Control
     cs += [H1("i", 3), H1("ii", 2), H1("iii", 2, side="pre"), H1("iIi", 2, side="post"), H1("a", 3, dt="sym"), H1("aa", 2), H1("aaa", 2, dt="sym"),
            H1("ab", 2), H1("aab", 2), H1("abc", 2, side="post"), H1("ia", 2), H1("aia", 2, side="pre")]
-    cs += [H1("ia", 2, "mixed_same_step", side="pre"), H1("ai", 2, "mixed_same_step", side="pre"),
-           H1("ia", 2, "mixed_same_step", side="post"), H1("ai", 2, "mixed_same_step", side="post"),
-           H1("ab", 2, "float_antichrono")]
+    for mm in ("mixed_same_step/each_acts_once", "mixed_same_step/insertion_order"):
+        cs += [H1("ia", 2, mm, side="pre"), H1("ai", 2, mm, side="pre"), H1("ia", 2, mm, side="post"), H1("ai", 2, mm, side="post")]
+    cs += [H1("ab", 2, "float_antichrono")]
     # ---- H2 compute_dynamics
     cs += [H2(0, 2, "i"), H2(1, 2, "i"), H2(1, 3, "f", start=0.3), H2(1, 2, "ii"), H2(1, 2, "if", bond=1), H2(1, 2, "ii", stack=True, rank=3)]
     # ---- H3 chains
@@ -426,7 +434,8 @@ def cases(tier):
     cs += [H3b(1, 2, "claim"), H3b(2, 1, "claim", bonds=(1, 1), pair=False), H3b(2, 1, "stack_order", bonds=(1, 1), pair=False)]
     if tier == "thorough":
         cs += [H1("iii", 3), H1("iii", 2), H1("abc", 3, dt="sym"), H1("aab", 2, dt="sym"), H1("abb", 2), H1("iai", 2), H1("ab", 3, "float_antichrono", dt="sym"),
-               H1("ia", 3, "mixed_same_step", dt="sym", side="pre"), H1("ai", 3, "mixed_same_step", dt="sym", side="post")]
+               H1("ia", 3, "mixed_same_step/each_acts_once", dt="sym", side="pre"), H1("ai", 3, "mixed_same_step/each_acts_once", dt="sym", side="post"),
+               H1("ia", 3, "mixed_same_step/insertion_order", dt="sym", side="pre"), H1("ai", 3, "mixed_same_step/insertion_order", dt="sym", side="post")]
         cs += [H2(0, 3, "ii"), H2(1, 3, "ii"), H2(2, 2, "i", bond=1), H2(1, 3, "ff", start=0.3, bond=1), H2(1, 3, "iii", stack=True, bond=1), H2(1, 2, "iii", bond=1)]
         cs += [H3a(3, 1, "claim"), H3a(3, 2, "stack_order"), H3b(2, 2, "claim", bonds=(1, 1)), H3b(1, 3, "claim", bonds=(1, 1), pair=False), H3b(1, 2, "claim", bonds=(2, 2)),
                H3b(3, 1, "stack_order", bonds=(1, 1), pair=False), H3b(2, 2, "stack_order", bonds=(2, 1))]
